@@ -135,6 +135,12 @@ func c19Gen(t *rapid.T) c19Case {
 			D2Ns:     c19Delay.Draw(t, "d2"),
 			Silent:   rapid.IntRange(0, 5).Draw(t, "silent") == 0,
 		}
+		// a peer whose clock was reset (dead RTC battery) answers with a time at or near the UNIX
+		// epoch or another firmware default: it did answer, and it is decades off
+		if rapid.IntRange(0, 19).Draw(t, "resetclock") == 0 {
+			abs := rapid.SampledFrom([]int64{0, 999999999, 1000000000, -1, -3600e9, 315532800e9, 946684800e9, 86400e9}).Draw(t, "resetto")
+			p.OffsetNs = abs - (c.T0 + p.D1Ns)
+		}
 		c.Peers = append(c.Peers, p)
 	}
 	return c
